@@ -29,14 +29,19 @@ THEOREMS = [NS + t for t in (
     'C09_demo_repaired', 'semOf_local', 'eqvR_sound', 'C09_iter_restored', 'C09_iter_retry_partial',
     'C09_iter_wip_counterexample', 'C09_iter_demo_repaired')]
 DESIGN_REF = 'DESIGN.md §7 C09'
-RULE = ('deterministic core: five fixed workbooks (chain, range, CSE array, captured-message, cycle) x every formula '
-        'cell in turn made to fail with every failure mode (unknown function, always-raising plugin, plugin raising '
-        'on its 1st / 2nd call) x the history [evaluate dependant, retry, evaluate failing cell, evaluate every other '
-        'cell, repair with set_value, evaluate everything twice], plain and iterative; random: DAG workbooks of 3-10 '
-        'cells (ranges, CSE block, captured #VALUE! operands before/after the precedents) with 1-2 failing cells and '
-        'random follow-up histories (evaluate / set_value on inputs / repair / overwrite of a healthy formula), plain '
-        'and iterative (iterative: no ranges, cycles through the failing cell). A case is non-trivial when an evaluate '
-        'raises and a later evaluate of another cell or of the same cell follows.')
+RULE = ('deterministic core: fixed workbooks (chain leaf/mid, range, CSE array, captured-message, cycle) x every formula '
+        'cell in turn made to fail x failure mode {unknown function (12 spellings), plugin raising on every call one of 13 '
+        'Python exception classes (NameError, UnboundLocalError, RecursionError, KeyError, IndexError, ValueError, '
+        'TypeError, ZeroDivisionError, AssertionError, AttributeError, NotImplementedError, RuntimeError, a custom '
+        'Exception subclass), plugin raising on its 1st / 2nd call} x the history [evaluate dependant, retry, failing '
+        'cell, every other cell, repair with set_value (5, 0, "", "a", 7 in rotation), everything twice], plain and '
+        'iterative; hostile text literals ({ } {0} {name} %s % backslash, quotes, line breaks; 21 of them, rotating) in '
+        'the formula text of the failing cell, of its dependants and of cells with captured #VALUE! operands; random: '
+        'DAG workbooks of 3-10 cells (ranges, CSE block, captured operands, hostile literals on 40% of the formulas) '
+        'with 1-2 failing cells of random kind and random follow-up histories (evaluate / set_value on inputs / repair '
+        '/ overwrite of a healthy formula), plain and iterative (iterative: no ranges, cycles through the failing '
+        'cell). Every evaluate (failing cell, dependant, retry, unrelated) is classified by the TYPE of the exception '
+        'raised. A case is non-trivial when an evaluate raises and a later evaluate follows.')
 ASSUMPTIONS = [
     'failures are injected through an unknown function (=expr+FOO()) or the plugin FAILAT(id,k,expr) which raises on '
     'its k-th call (k=0: always); library functions raising on particular arguments are the same path (except Exception)',
@@ -45,7 +50,13 @@ ASSUMPTIONS = [
     'iterative mode: workbooks whose values are reached in the first pass (acyclic, or cycles through the failing cell); '
     'the model runs one pass per evaluate; no ranges / CSE / k-th-call faults there',
     'set_value only on cells that are in the cell map',
-    'RecursionError (Python recursion limit) is not provoked',
+    'RecursionError is raised by the plugin as an exception class, the interpreter limit itself is not provoked; the '
+    'RecursionError("Do you need to use cycles=True ?") that eval_func re-raises on purpose is read as one of '
+    'pycel\'s own errors (token reraised:RecursionError), any other non-pycel exception type is bare; BaseException '
+    'kinds that are not Exceptions (KeyboardInterrupt, SystemExit, GeneratorExit) are not errors of a function and '
+    'are outside the property: not generated',
+    'a k-th-call fault is only combined with a second failing cell in the fixed workbooks: which of two failing '
+    'cells a graph construction reaches first (work-list order) is not modelled and would shift the call counts',
     'when one evaluate call first builds two or more ranges (plain or CSE), the order in which graph construction '
     'evaluates them is not modelled: the exception class of that call is compared up to "a pycel error"',
 ]
@@ -584,7 +595,7 @@ def gen_case(rng, mode):
         if r < 0.3:
             attrs[f][0] = 'unk'
             attrs[f][4] = rng.randrange(len(NAMES))
-        elif r < 0.75 or mode == 'iter':
+        elif r < 0.75 or mode == 'iter' or len(failing) > 1:
             attrs[f][0] = 'raise:' + rng.choice(KINDS)
         else:
             attrs[f][0] = f'at{rng.randint(1, 3)}:' + rng.choice(KINDS)
